@@ -14,8 +14,10 @@ import (
 	"strconv"
 	"strings"
 
+	apifu "github.com/ccbrown/api-fu"
 	"github.com/ccbrown/api-fu/graphql"
 	"github.com/ccbrown/api-fu/graphql/ast"
+	"github.com/ccbrown/api-fu/graphql/validator"
 
 	"verifharness/internal/hx"
 	"verifharness/internal/rng"
@@ -39,6 +41,8 @@ func encValue(v interface{}) string {
 		return "f"
 	case int:
 		return "i" + strconv.Itoa(v) + ";"
+	case int64:
+		return "I" + strconv.FormatInt(v, 10) + ";"
 	case float64:
 		m, e := dyadicOf(v)
 		return "d" + m.String() + "e" + strconv.Itoa(e) + ";"
@@ -209,6 +213,17 @@ func jvalSexp(v interface{}) sexp.Node {
 			l = append(l, jvalSexp(x))
 		}
 		return sexp.T("list", l...)
+	case map[string]interface{}:
+		var ks []string
+		for k := range v {
+			ks = append(ks, k)
+		}
+		sort.Strings(ks)
+		var l []sexp.Node
+		for _, k := range ks {
+			l = append(l, sexp.L(sexp.Str(k), jvalSexp(v[k])))
+		}
+		return sexp.T("obj", l...)
 	}
 	return sexp.Sym("other")
 }
@@ -232,6 +247,9 @@ func inputsSexp(s *schemaDef) (sexp.Node, sexp.Node) {
 	for _, k := range [][2]string{{"Boolean", "boolean"}, {"Float", "float"}, {"ID", "id"}, {"Int", "int"}, {"String", "string"}} {
 		ins = append(ins, sexp.L(sexp.Str(k[0]), sexp.T("scalar", sexp.Sym(k[1]))))
 	}
+	if s.poolArgs != nil {
+		ins = append(ins, stdInputsSexp()...)
+	}
 	ads := []sexp.Node{}
 	for _, t := range s.types {
 		if t.kind != "object" {
@@ -239,11 +257,15 @@ func inputsSexp(s *schemaDef) (sexp.Node, sexp.Node) {
 		}
 		fs := []sexp.Node{sexp.Str(t.name)}
 		for _, f := range t.fields {
-			if len(t.fargs[f.name]) == 0 {
+			fa := t.fargs[f.name]
+			if fa == nil {
+				fa = s.poolArgs[f.name]
+			}
+			if len(fa) == 0 {
 				continue
 			}
 			l := []sexp.Node{sexp.Str(f.name)}
-			for _, a := range t.fargs[f.name] {
+			for _, a := range fa {
 				d := sexp.None()
 				if a.def != nil {
 					d = sexp.Some(gvalSexp(a.def))
@@ -381,4 +403,259 @@ func argFamily(h *hx.H) {
 			}
 		}
 	}
+}
+
+// ---- arguments in the random and hostile streams ----
+
+// The input types every random schema carries: an enum, two input objects (defaults, a list
+// field, nesting, a required field) and package apifu's LongInt scalar.
+func stdInputTypes() map[string]graphql.NamedType {
+	ein := &graphql.EnumType{Name: "EIn", Values: map[string]*graphql.EnumValueDefinition{
+		"EA": {Value: "EA"}, "EB": {Value: "EB"}, "EC": {Value: "EC"}}}
+	inb := &graphql.InputObjectType{Name: "InB", Fields: map[string]*graphql.InputValueDefinition{
+		"e": {Type: ein, DefaultValue: "EB"},
+		"n": {Type: graphql.NewNonNullType(graphql.IntType)},
+	}}
+	ina := &graphql.InputObjectType{Name: "InA", Fields: map[string]*graphql.InputValueDefinition{
+		"x": {Type: graphql.IntType, DefaultValue: 3},
+		"y": {Type: graphql.NewListType(graphql.NewNonNullType(graphql.StringType))},
+		"z": {Type: inb},
+	}}
+	return map[string]graphql.NamedType{"EIn": ein, "InA": ina, "InB": inb, "LongInt": apifu.LongIntType}
+}
+
+func stdInputsSexp() []sexp.Node {
+	idef := func(n string, t sexp.Node, d sexp.Node) sexp.Node { return sexp.L(sexp.Str(n), t, d) }
+	nm := func(n string) sexp.Node { return sexp.T("named", sexp.Str(n)) }
+	return []sexp.Node{
+		sexp.L(sexp.Str("EIn"), sexp.T("enum", sexp.L(sexp.Str("EA"), sexp.T("str", sexp.Str("EA"))),
+			sexp.L(sexp.Str("EB"), sexp.T("str", sexp.Str("EB"))), sexp.L(sexp.Str("EC"), sexp.T("str", sexp.Str("EC"))))),
+		sexp.L(sexp.Str("InA"), sexp.T("input", sexp.Sym("none"),
+			idef("x", nm("Int"), sexp.Some(sexp.T("int", sexp.Int(3)))),
+			idef("y", sexp.T("list", sexp.T("nn", nm("String"))), sexp.None()),
+			idef("z", nm("InB"), sexp.None()))),
+		sexp.L(sexp.Str("InB"), sexp.T("input", sexp.Sym("none"),
+			idef("e", nm("EIn"), sexp.Some(sexp.T("str", sexp.Str("EB")))),
+			idef("n", sexp.T("nn", nm("Int")), sexp.None()))),
+		sexp.L(sexp.Str("LongInt"), sexp.T("scalar", sexp.Sym("longint"))),
+	}
+}
+
+var argMenu = []argDef{
+	{"k", named("Int"), nil}, {"kn", nonNull(named("Int")), nil}, {"s", named("String"), "d"}, {"b", named("Boolean"), nil},
+	{"xs", listOf(nonNull(named("Int"))), nil}, {"fl", named("Float"), nil}, {"id", named("ID"), nil},
+	{"e", named("EIn"), "EB"}, {"o", named("InA"), nil}, {"os", listOf(nonNull(named("InA"))), nil},
+	{"li", named("LongInt"), nil}, {"kd", nonNull(named("Int")), 4},
+}
+
+// poolArgs: the arguments of a pool field (the same for every type that has the field)
+func poolArgs(r *rng.R) []argDef {
+	if !r.Chance(2, 5) {
+		return nil
+	}
+	var out []argDef
+	for _, i := range permN(r, len(argMenu))[:r.Range(1, 3)] {
+		out = append(out, argMenu[i])
+	}
+	sort.Slice(out, func(i, j int) bool { return out[i].name < out[j].name })
+	return out
+}
+
+type typedVar struct {
+	decl string
+}
+
+func (g *docGen) litOf(t *tyRef, depth int) string {
+	r := g.r
+	switch t.kind {
+	case '!':
+		return g.litOf(t.inner, depth)
+	case 'l':
+		if r.Chance(1, 3) {
+			return g.litOf(t.inner, depth) // a single item stands for a list
+		}
+		var items []string
+		for i, n := 0, r.Intn(3); i < n; i++ {
+			items = append(items, g.litOf(t.inner, depth))
+		}
+		return "[" + strings.Join(items, ", ") + "]"
+	}
+	switch t.name {
+	case "Int":
+		return rng.Pick(r, []string{"0", "1", "-1", "7", "2147483647", "-2147483648"})
+	case "Float":
+		return rng.Pick(r, []string{"1.5", "2", "1e2", "-0.25", "0.1", "3"})
+	case "String":
+		return rng.Pick(r, []string{`"a"`, `""`, `"xy"`, `"d"`})
+	case "Boolean":
+		return rng.Pick(r, []string{"true", "false"})
+	case "ID":
+		return rng.Pick(r, []string{`"a"`, "7", `"7"`})
+	case "EIn":
+		return rng.Pick(r, []string{"EA", "EB", "EC"})
+	case "LongInt":
+		return rng.Pick(r, []string{"1", "9007199254740991", "-5", "2147483648"})
+	case "InB":
+		s := "n: " + g.litOf(named("Int"), depth)
+		if r.Bool() {
+			s += ", e: " + g.litOf(named("EIn"), depth)
+		}
+		return "{" + s + "}"
+	case "InA":
+		var fs []string
+		if r.Bool() {
+			fs = append(fs, "x: "+rng.Pick(r, []string{"1", "null", "5"}))
+		}
+		if r.Bool() {
+			fs = append(fs, "y: "+g.litOf(listOf(nonNull(named("String"))), depth))
+		}
+		if depth > 0 && r.Bool() {
+			fs = append(fs, "z: "+g.litOf(named("InB"), depth-1))
+		}
+		return "{" + strings.Join(fs, ", ") + "}"
+	}
+	return "null"
+}
+
+// rawOf: a raw variable value for the type (mostly one that coerces)
+func (g *docGen) rawOf(t *tyRef, depth int) interface{} {
+	r := g.r
+	num := func(i int) interface{} {
+		if r.Bool() {
+			return float64(i)
+		}
+		return i
+	}
+	switch t.kind {
+	case '!':
+		return g.rawOf(t.inner, depth)
+	case 'l':
+		if r.Chance(1, 4) {
+			return g.rawOf(t.inner, depth)
+		}
+		out := []interface{}{}
+		for i, n := 0, r.Intn(3); i < n; i++ {
+			out = append(out, g.rawOf(t.inner, depth))
+		}
+		return out
+	}
+	if r.Chance(1, 12) {
+		return rng.Pick(r, []interface{}{"zz", true, 1.5, []interface{}{}, map[string]interface{}{}}) // often the wrong kind
+	}
+	switch t.name {
+	case "Int":
+		return num(rng.Pick(r, []int{0, 1, -1, 7, 2147483647}))
+	case "Float":
+		return rng.Pick(r, []interface{}{1.5, 2.0, 3, -0.25})
+	case "String":
+		return rng.Pick(r, []interface{}{"a", "", "xy"})
+	case "Boolean":
+		return r.Bool()
+	case "ID":
+		return rng.Pick(r, []interface{}{"a", 7, "7", 7.0})
+	case "EIn":
+		return rng.Pick(r, []interface{}{"EA", "EB", "EC", "ED"})
+	case "LongInt":
+		return rng.Pick(r, []interface{}{1, 9007199254740991.0, -5.0, 2147483648.0})
+	case "InB":
+		m := map[string]interface{}{"n": num(2)}
+		if r.Bool() {
+			m["e"] = "EA"
+		}
+		return m
+	case "InA":
+		m := map[string]interface{}{}
+		if r.Bool() {
+			m["x"] = rng.Pick(r, []interface{}{1, nil, 5.0})
+		}
+		if r.Bool() {
+			m["y"] = rng.Pick(r, []interface{}{[]interface{}{"a"}, "b", []interface{}{}})
+		}
+		if depth > 0 && r.Bool() {
+			m["z"] = g.rawOf(named("InB"), depth-1)
+		}
+		return m
+	}
+	return nil
+}
+
+// argsText: the argument list of one selection of field fname
+func (g *docGen) argsText(fname string) string {
+	defs := g.s.poolArgs[fname]
+	if len(defs) == 0 {
+		return ""
+	}
+	r := g.r
+	var parts []string
+	for _, d := range defs {
+		required := d.ty.kind == '!' && d.def == nil
+		if !required && r.Chance(1, 4) {
+			continue
+		}
+		if g.hostile && r.Chance(1, 12) {
+			continue // possibly a missing required argument
+		}
+		switch x := r.Intn(12); {
+		case x < 7:
+			parts = append(parts, d.name+": "+g.litOf(d.ty, 1))
+		case x == 7 && d.ty.kind != '!':
+			parts = append(parts, d.name+": null")
+		default:
+			v := fmt.Sprintf("a%d", len(g.typed))
+			decl := "$" + v + ": " + d.ty.String()
+			switch y := r.Intn(8); {
+			case y < 4: // given
+				g.typedVals[v] = g.rawOf(d.ty, 1)
+			case y == 4: // explicit null
+				g.typedVals[v] = nil
+			case y == 5 && d.ty.kind != '!': // nullable with a default, absent
+				decl += " = " + g.litOf(d.ty, 1)
+			case y == 6 && d.ty.kind != '!': // nullable with a default, explicit null
+				decl += " = " + g.litOf(d.ty, 1)
+				g.typedVals[v] = nil
+			default: // absent
+			}
+			g.typed = append(g.typed, decl)
+			parts = append(parts, d.name+": $"+v)
+		}
+	}
+	if len(parts) == 0 {
+		return ""
+	}
+	return "(" + strings.Join(parts, ", ") + ")"
+}
+
+// keyOf: the outcome-table key the resolver of this field node will look up on an object of type
+// ot: computed with the library's own CoerceArgumentValues, so that an entry exists exactly where
+// the implementation looks (a model that coerces differently looks elsewhere and finds nothing).
+func (g *wGen) keyOf(ot string, s selInfo) (string, bool) {
+	if g.real == nil || s.node == nil {
+		return s.name, true
+	}
+	o, ok := g.real.NamedTypes()[ot].(*graphql.ObjectType)
+	if !ok || o.Fields[s.name] == nil || (len(o.Fields[s.name].Arguments) == 0 && len(s.node.Arguments) == 0) {
+		return s.name, true
+	}
+	args, err := validator.CoerceArgumentValues(s.node, o.Fields[s.name].Arguments, s.node.Arguments, g.vv)
+	if err != nil {
+		return "", false
+	}
+	return fieldKey(s.name, args), true
+}
+
+// perturbed: another argument map close to args (a decoy entry of the outcome table)
+func perturbed(args string) string {
+	for _, p := range [][2]string{{"=i1;", "=i2;"}, {"=i7;", "=i8;"}, {"=t", "=f"}, {"=f", "=t"}, {"=n", "=i0;"}, {"=s1:a", "=s1:b"}, {"=s2:EB", "=s2:EA"}, {"=i3;", "=i4;"}} {
+		if strings.Contains(args, p[0]) {
+			return strings.Replace(args, p[0], p[1], 1)
+		}
+	}
+	return args + "1:_=n"
+}
+
+func fieldArgs(s *schemaDef, t *typeDef, fname string) []argDef {
+	if a := t.fargs[fname]; a != nil {
+		return a
+	}
+	return s.poolArgs[fname]
 }
